@@ -804,6 +804,7 @@ func lessPath(a, b []uint64) bool {
 
 type gen struct {
 	r       *lib.Rand
+	noSpawn bool // inside an OnKilled script: respawning a child there while being killed never terminates (user-level livelock)
 	nextTag uint64
 	names   [][]uint64 // paths that may exist
 }
@@ -841,12 +842,12 @@ func (g *gen) acts(depth int, path []uint64, inHandler bool) []Action {
 			out = append(out, Action{K: aTell, R: g.ref(depth), Tag: g.tag(), Acts: g.acts(depth-1, path, true)})
 		case k < 10:
 			out = append(out, Action{K: aTellSelf, Tag: g.tag(), Acts: g.acts(depth-1, path, true)})
-		case k < 13 && depth > 0:
+		case k < 13 && depth > 0 && !g.noSpawn:
 			sp := g.spec(depth-1, path)
 			out = append(out, Action{K: aSpawn, Spec: sp})
 		case k < 15:
 			out = append(out, Action{K: aKill, R: g.ref(depth), Poison: g.r.Bool()})
-		case k < 17:
+		case k < 18:
 			out = append(out, Action{K: aPanic})
 		case k < 18 && inHandler && !hasKind(out, aUnstash):
 			out = append(out, Action{K: aStash})
@@ -899,15 +900,16 @@ func (g *gen) spec(depth int, parent []uint64) *Spec {
 		sp.Kill = g.acts(depth-1, path, true)
 	}
 	if g.r.Chance(1, 3) {
+		old := g.noSpawn
+		g.noSpawn = true
 		sp.Killed = g.acts(depth-1, path, true)
+		g.noSpawn = old
 	}
-	sp.Strategy = g.r.Intn(3)
-	nd := g.r.Intn(4)
+	sp.Strategy = []int{0, 1, 1, 1, 2, 2}[g.r.Intn(6)]
+	nd := g.r.Intn(5)
 	for i := 0; i < nd; i++ {
-		d := 1 + g.r.Intn(6)
-		if g.r.Chance(1, 25) {
-			d = 0
-		}
+		// restart-biased: 1 restart, 2 graceful restart, 3 stop, 4 graceful stop, 5 resume, 6 escalate, 0 invalid
+		d := []int{1, 1, 1, 2, 2, 3, 4, 5, 5, 5, 6, 6, 1, 2, 5, 6, 3, 4, 1, 0}[g.r.Intn(20)]
 		sp.Decisions = append(sp.Decisions, d)
 	}
 	nh := g.r.Intn(3)
@@ -963,6 +965,85 @@ func (g *gen) scenario() [][]Action {
 	return scripts
 }
 
+// supervision matrix: decision x strategy x failure site, with siblings, a grandchild, queued mail behind the
+// failing message, restart hooks that may fail, and escalation chains of depth 1..2
+func (g *gen) supScenario() [][]Action {
+	g.names = nil
+	dec := func() int { return []int{1, 2, 3, 4, 5, 6, 1, 2, 5, 6, 0}[g.r.Intn(11)] }
+	decs := func() []int {
+		n := 1 + g.r.Intn(3)
+		out := make([]int, n)
+		for i := range out {
+			out[i] = dec()
+		}
+		return out
+	}
+	hooks := func() [][3]bool {
+		var h [][3]bool
+		for i := 0; i < g.r.Intn(3); i++ {
+			h = append(h, [3]bool{true, !g.r.Chance(1, 3), !g.r.Chance(1, 3)})
+		}
+		return h
+	}
+	site := g.r.Intn(4) // 0 user message, 1 OnLaunch, 2 a child's OnKilled, 3 user message + sibling failure
+	grand := &Spec{Name: 1, Prelaunch: true, Provider: g.r.Bool()}
+	c1 := &Spec{Name: 1, Prelaunch: true, Provider: g.r.Bool(), Hooks: hooks(), Strategy: g.r.Intn(3), Decisions: decs()}
+	c1.Launch = []Action{{K: aSpawn, Spec: grand}}
+	if g.r.Chance(1, 4) {
+		c1.Launch = append(c1.Launch, Action{K: aSub, Ty: 100})
+	}
+	if site == 1 {
+		c1.Launch = append(c1.Launch, Action{K: aPanic})
+	}
+	if site == 2 {
+		c1.Killed = []Action{{K: aPanic}}
+	}
+	c2 := &Spec{Name: 2, Prelaunch: true, Hooks: hooks()}
+	p := &Spec{Name: 1, Prelaunch: true, Strategy: 1 + g.r.Intn(2), Decisions: decs()}
+	p.Launch = []Action{{K: aSpawn, Spec: c1}, {K: aSpawn, Spec: c2}}
+	// burst to c1: the failing message at a random position
+	k := 1 + g.r.Intn(5)
+	fail := g.r.Intn(k)
+	for i := 0; i < k; i++ {
+		var acts []Action
+		if i == fail && (site == 0 || site == 3) {
+			acts = []Action{{K: aPanic}}
+		} else if i == fail && site == 2 {
+			acts = []Action{{K: aKill, R: RX{K: 3, N: 1}, Poison: g.r.Bool()}} // kill the grandchild: its OnKilled makes c1 fail
+		} else if g.r.Chance(1, 3) {
+			acts = g.acts(1, nil, true)
+		}
+		p.Launch = append(p.Launch, Action{K: aTell, R: RX{K: 3, N: 1}, Tag: g.tag(), Acts: acts})
+	}
+	p.Launch = append(p.Launch, Action{K: aTell, R: RX{K: 3, N: 2}, Tag: g.tag()})
+	if site == 3 {
+		p.Launch = append(p.Launch, Action{K: aTell, R: RX{K: 3, N: 2}, Tag: g.tag(), Acts: []Action{{K: aPanic}}})
+	}
+	top := p
+	path := []uint64{1}
+	if g.r.Bool() { // an extra level so that Escalate has somewhere to go below the root
+		gp := &Spec{Name: 1, Prelaunch: true, Strategy: 1 + g.r.Intn(2), Decisions: decs()}
+		gp.Launch = []Action{{K: aSpawn, Spec: p}}
+		top = gp
+		path = []uint64{1, 1}
+	}
+	c1p := append(append([]uint64(nil), path...), 1)
+	c2p := append(append([]uint64(nil), path...), 2)
+	main := []Action{{K: aSpawn, Spec: top}}
+	// probes after the dust settles (through parsed refs): survivors must still process mail
+	for i := 0; i < 2; i++ {
+		main = append(main, Action{K: aTell, R: RX{K: 4, P: c1p}, Tag: g.tag()}, Action{K: aTell, R: RX{K: 4, P: c2p}, Tag: g.tag()})
+	}
+	if g.r.Chance(1, 4) {
+		main = append(main, Action{K: aKill, R: RX{K: 4, P: c1p}, Poison: g.r.Bool()})
+	}
+	scripts := [][]Action{main}
+	if g.r.Chance(1, 3) {
+		scripts = append(scripts, []Action{{K: aTell, R: RX{K: 4, P: c1p}, Tag: g.tag()}, {K: aKill, R: RX{K: 4, P: path}, Poison: g.r.Bool()}})
+	}
+	return scripts
+}
+
 // all user-message tags a scenario can send
 func collectTags(as []Action, out map[uint64]bool) {
 	for _, a := range as {
@@ -1003,6 +1084,34 @@ func (h *H) emit(scripts [][]Action, res result) {
 		return
 	}
 	h.o.Case(fmt.Sprintf("events<%d", ((len(evs)/50)+1)*50), len(res.finals) >= 3, in, out)
+	for _, e := range res.events {
+		sh := lib.Show(e.ev)
+		if strings.HasPrefix(sh, "(3 ") { // a handler invocation: classify by message kind
+			o := lib.Show(e.out)
+			for _, k := range []struct{ pat, name string }{{" (c ", "handled:dead-letter"}, {" (1))", "handled:OnLaunch"}, {" (2 ", "handled:OnKill"}, {" (3 ", "handled:OnKilled"}, {" (4 ", "handled:supervision"},
+				{" (5))", "handled:pause"}, {" (6))", "handled:resume"}, {" (7 ", "handled:restart"}, {" (8))", "handled:watch"}, {" (9))", "handled:unwatch"},
+				{" (a ", "handled:user"}, {" (b ", "handled:event"}, } {
+				if strings.Contains(o, k.pat) {
+					h.o.Stats[k.name]++
+					break
+				}
+			}
+		}
+	}
+	for _, f := range res.finals {
+		if f.info.Zombie {
+			h.o.Stats["final:zombie"]++
+		}
+		if f.info.State == 2 {
+			h.o.Stats["final:killed"]++
+		}
+		if f.k.gen > 0 {
+			h.o.Stats["final:name-reused"]++
+		}
+		if f.info.StashLen > 0 {
+			h.o.Stats["final:stash-nonempty"]++
+		}
+	}
 	h.o.Stats["events"] += len(evs)
 	h.o.Stats["actors"] += len(res.finals)
 	h.monitors(scripts, res, in)
@@ -1130,7 +1239,12 @@ func main() {
 	}
 	g := &gen{r: r}
 	for i := 0; i < n; i++ {
-		sc := g.scenario()
+		var sc [][]Action
+		if i%2 == 1 {
+			sc = g.supScenario()
+		} else {
+			sc = g.scenario()
+		}
 		rr := r.Fork()
 		var ch func([]int, int) int
 		switch r.Intn(3) {
